@@ -182,10 +182,17 @@ def check_plan(spec, m, plan_desc, res, ctx, methods=("first_order",)):
             res.nt((name, mode, tuple(targets), tuple(instruments), source, method))
             res.count("planned_simulations_" + method)
             tol = 1e-8 if method == "first_order" else 1e-6
+            # absolute tolerance relative to the largest number in the run: an admissible (cond <= 1e6) but poorly
+            # conditioned plan returns shocks of size 1e4 and the path inherits their rounding error
+            scale = 1.0
+            for n_ in names_s + names_v:
+                a_ = arr(out, n_, 0)
+                if np.any(np.isfinite(a_)):
+                    scale = max(scale, float(np.nanmax(np.abs(a_))))
             # (a) exogenized cells equal their input values
             for tg in targets:
                 g, e_ = val(out, spec.var(tg[1]), tg[2]), val(db_in, spec.var(tg[1]), tg[2])
-                if not np.isclose(g, e_, rtol=tol, atol=tol):
+                if not np.isclose(g, e_, rtol=tol, atol=tol * scale):
                     bad("target_missed", "%s at date %d: %.12g, input %.12g" % (spec.var(tg[1]), tg[2], g, e_), method=method, source=source)
             # (b) only endogenized shocks at endogenized dates differ from their inputs; initial conditions untouched
             endo = {(shock_name(spec, ins), ins[2]) for ins in instruments}
@@ -207,7 +214,7 @@ def check_plan(spec, m, plan_desc, res, ctx, methods=("first_order",)):
             # (stacked time does not simulate measurement variables)
             for n_ in names_v + ([spec.obs(k) for k in range(len(spec.meas))] if method == "first_order" else []):
                 a, b = arr(out, n_, 0), arr(re, n_, 0)
-                if not np.allclose(a, b, rtol=tol, atol=tol):
+                if not np.allclose(a, b, rtol=tol, atol=tol * scale):
                     bad("not_a_simulation", "%s: planned %s, ordinary simulation with the returned shocks %s" % (n_, np.round(a, 8).tolist(), np.round(b, 8).tolist()),
                         method=method, source=source, what="path")
                     break
@@ -216,7 +223,7 @@ def check_plan(spec, m, plan_desc, res, ctx, methods=("first_order",)):
             if source == "inversion" and single_info_set:
                 for n_ in names_s + names_v:
                     a, b = np.nan_to_num(arr(out, n_, 0)), np.nan_to_num(arr(truth, n_, 0))
-                    if not np.allclose(a, b, rtol=tol, atol=tol):
+                    if not np.allclose(a, b, rtol=tol, atol=tol * scale):
                         bad("inversion", "%s: recovered %s, true %s" % (n_, np.round(a, 8).tolist(), np.round(b, 8).tolist()), method=method, source=source,
                             what="shock" if n_ in names_s else "path")
                         break
